@@ -1339,12 +1339,11 @@ class Session:
                 ediv=self.peer_ediv,
                 rand=self.peer_rand,
             )
-            if self.is_initiator:
-                keys.ltk_central = peer_ltk_key
-                keys.ltk_peripheral = our_ltk_key
-            else:
-                keys.ltk_central = our_ltk_key
-                keys.ltk_peripheral = peer_ltk_key
+            # Whatever our role during pairing: when we are the central of a later
+            # connection we use the key distributed by the peer, and when we are the
+            # peripheral we answer with the key we distributed ourselves.
+            keys.ltk_central = peer_ltk_key
+            keys.ltk_peripheral = our_ltk_key
         if self.peer_identity_resolving_key is not None:
             keys.irk = PairingKeys.Key(
                 value=self.peer_identity_resolving_key, authenticated=authenticated
